@@ -90,7 +90,13 @@ pub fn prop_kind(k: &Kind) -> &'static str {
 /// Luminosity overflow in `lum()` with overflow checks on) are a dependency defect recorded
 /// under C07; other checks treat those cases as "reference undefined".
 pub fn is_nonsep_overflow(v: &StepViolation) -> bool {
-    v.kind == Kind::Panic && v.detail.contains("sw-composite") && v.detail.contains("overflow")
+    v.kind == Kind::Panic && is_dependency_panic(&v.detail)
+}
+
+/// a panic raised inside sw-composite (arithmetic overflow in `lum()`/`div255`, or its own
+/// `debug_assert!(c <= a)` in pack_argb32 - both only reachable through the non-separable modes)
+pub fn is_dependency_panic(msg: &str) -> bool {
+    msg.contains("sw-composite")
 }
 
 pub fn account(l: &mut Local, st: &SceneStats) {
@@ -143,7 +149,7 @@ pub fn diff_scenes(sig: &str, a: &Scene, b: &Scene) -> Result<(u64, bool), Viola
             Err(Violation::new(format!("{}/one-route-panicked", sig), case, format!("only one of the two routes panicked: {}", p)))
         }
         (Err(p1), Err(_)) => {
-            if p1.contains("sw-composite") && p1.contains("overflow") {
+            if is_dependency_panic(&p1) {
                 // both routes hit the dependency's non-separable overflow (recorded under C07)
                 Ok((0, false))
             } else {
